@@ -35,3 +35,38 @@ impl Add<Duration> for Instant {
         Instant(self.0.saturating_add(rhs.as_nanos() as u64))
     }
 }
+
+// ------------------------------------------------------------------------- wall clock
+//
+// `SystemTime::now()` for code that stamps things with the date (the Date header): the real
+// wall clock, shifted by an offset the harness controls.  It returns a std SystemTime, so that conversions written
+// for std (`HttpDate::from(SystemTime::now())`) compile unchanged.
+
+use std::sync::atomic::{AtomicI64, Ordering};
+
+static WALL_OFFSET_SECS: AtomicI64 = AtomicI64::new(0);
+
+/// Shifts the wall clock seen by the code under test by `secs` (absolute, not cumulative).
+pub fn set_wall_offset_secs(secs: i64) {
+    WALL_OFFSET_SECS.store(secs, Ordering::SeqCst);
+}
+
+pub fn wall_offset_secs() -> i64 {
+    WALL_OFFSET_SECS.load(Ordering::SeqCst)
+}
+
+pub struct SystemTime;
+
+impl SystemTime {
+    pub const UNIX_EPOCH: std::time::SystemTime = std::time::SystemTime::UNIX_EPOCH;
+
+    pub fn now() -> std::time::SystemTime {
+        let t = std::time::SystemTime::now();
+        let off = WALL_OFFSET_SECS.load(Ordering::SeqCst);
+        if off >= 0 {
+            t + Duration::from_secs(off as u64)
+        } else {
+            t - Duration::from_secs((-off) as u64)
+        }
+    }
+}
